@@ -197,6 +197,9 @@ func (c *ConnScript) defaults() {
 		if len(st.Gaps) == 0 || len(st.Segs) == 0 {
 			continue
 		}
+		if len(st.Segs) == 2 && st.Segs[1] >= len(st.Data) {
+			continue // one cut, two segments: a pause somebody asked for
+		}
 		minSeg := 1 << 30
 		for _, sz := range st.Segs {
 			if sz > 0 && sz < minSeg {
